@@ -57,7 +57,7 @@ def install(reg, src):
         ip.path.globals[f"{M}._gradient_registry"] = d
     reg.global_inits = getattr(reg, "global_inits", []) + [init_globals]
 
-    reg.mark_inline(f"{M}:_is_zero", f"{M}:_is_one", f"{M}:has_gradient_rule",
+    reg.mark_inline(f"{M}:_is_zero", f"{M}:_is_one", f"{M}:has_gradient_rule", f"{M}:apply_gradient_rule",
                     "optyx.core.expressions:_ensure_expr")
     for f in ["sin", "cos", "tan", "exp", "log", "sqrt", "abs_", "tanh", "sinh", "cosh"]:
         reg.mark_inline(f"optyx.core.functions:{f}")
@@ -70,6 +70,8 @@ def install(reg, src):
             l = c.arg("left" if name != "_simplify_pow" else "base", T.expr())
             r = c.arg("right" if name != "_simplify_pow" else "exp", T.expr())
             c.returns(T.expr())
+            c.requires(sp.wf(l), sp.wf(r), name="well-formed operands")
+            c.ensures("wf", lambda res: sp.wf(res))
             dl, dr = sp.den(l), sp.den(r)
             guard = domain(sp, l, r, dl, dr) if domain else z3.BoolVal(True)
             c.ensures("den", lambda res: z3.Implies(guard, sp.den(res) == combine(sp, dl, dr)))
@@ -91,6 +93,8 @@ def install(reg, src):
         sp = Spec(c.ip)
         e = c.arg("expr", T.expr())
         c.returns(T.expr())
+        c.requires(sp.wf(e), name="well-formed operand")
+        c.ensures("wf", lambda res: sp.wf(res))
         c.ensures("den", lambda res: sp.den(res) == -sp.den(e))
         c.ensures("zero", lambda res: z3.Implies(sp.is_zero(e), sp.is_zero(res)))
 
@@ -103,7 +107,7 @@ def install(reg, src):
         c.decreases(e)
         c.ensures("G1", lambda res: z3.Implies(sp.reg(e, w), sp.den(res) == sp.dv(e, w)))
         c.ensures("G2", lambda res: z3.Implies(z3.Not(sp.occ(e, w)), sp.is_zero(res)))
-        c.ensures("scalar", lambda res: sp.scalar_kind(res))
+        c.ensures("wf", lambda res: sp.wf(res))
         return w
 
     cases = scalar_node_cases(src)
@@ -118,8 +122,7 @@ def install(reg, src):
         node = c.choose("node", cases)
         e = c.arg("expr", node_type(node) if node else None)
         wrt = c.arg("wrt", T.obj("Variable"))
-        if not c.verifying:
-            c.requires(sp.scalar_kind(e), name="scalar expression")
+        c.requires(sp.wf(e), name="well-formed scalar expression")
         grad_contract(c, sp, e, wrt)
 
     @reg.contract(f"{M}:gradient", props=["C02", "C12", "C17"], cases={"node": cases}, group="grad", rank=3)
@@ -128,8 +131,7 @@ def install(reg, src):
         node = c.choose("node", cases)
         e = c.arg("expr", node_type(node) if node else None)
         wrt = c.arg("wrt", T.obj("Variable"))
-        if not c.verifying:
-            c.requires(sp.scalar_kind(e), name="scalar expression")
+        c.requires(sp.wf(e), name="well-formed scalar expression")
         grad_contract(c, sp, e, wrt)
 
     reg.grad_contract = grad_contract
